@@ -129,6 +129,13 @@ func (s *Session) runJob(st *Step) error {
 		return err
 	}
 	q := map[string]any{"job": d, "type": st.Type, "fault": st.Fault}
+	if run.Panic != "" {
+		// a panic in a job run takes the hub process down (jobrunner re-panics)
+		s.Checks++
+		s.diverge("job-panic", q, "run ends as success, failure or kill", "panic: "+run.Panic, "")
+		s.tick(1, 0)
+		return nil
+	}
 	// 1. the exact sequence of batches handed to the sink
 	s.Checks++
 	var exp, got [][]CEntity
